@@ -412,14 +412,16 @@ def b_api(rng, tier):
                     if is_method and cls.__name__ in ("Interpolation", "CurveFitting", "Angle", "Epoch") and f.__name__ in ALLOWED_SELF_WRITERS:
                         continue
                     try:
-                        f(*a2)
-                        res = "accepted"
+                        rb = f(*a2)
+                        # accepting a stand-in (duck typing) is not a violation; returning no value at all where a well-typed
+                        # call returns one is ("never by silently returning a non-value")
+                        res = "silently returned None" if (rb is None and r1 is not None and exc is None) else "accepted"
                     except (TypeError, ValueError):
                         res = "ok"
                     except Exception as e:
                         res = "raised %s" % type(e).__name__
-                    yield ((qual, "ill-typed", p.name, type(badv).__name__), res != "raised AttributeError" and not res.startswith("raised") or res == "ok",
-                           res, False)
+                    yield ((qual, "ill-typed", p.name, type(badv).__name__),
+                           (not res.startswith("raised") and res != "silently returned None") or res == "ok", res, False)
     for qual_, shp in sorted(shapes_seen.items()):
         yield ((qual_, "same type and arity of the result on every call"), len(shp) <= 1, sorted(shp), False)
     g1 = globals_snapshot()
@@ -452,3 +454,91 @@ def _numbers(v):
         for x in v:
             for y in _numbers(x):
                 yield y
+
+
+# ---- copies made by the copy constructors do not share state with their source (observed through the public interface)
+@P.bounded_check("copies/independent-of-their-source", grid="Angle, Epoch, Interpolation, CurveFitting: copy by constructor and by set(); then "
+                 "every public mutator on one of the two objects; the other one's observable state before / after; 20 (quick) / 200 "
+                 "(thorough) seeded data sets each")
+def b_copies(rng, tier):
+    from pymeeus.Angle import Angle
+    from pymeeus.Epoch import Epoch
+    from pymeeus.Interpolation import Interpolation
+    from pymeeus.CurveFitting import CurveFitting
+
+    def observe(o):
+        if isinstance(o, Angle):
+            return (o(), o.get_tolerance(), str(o), o.dms_tuple())
+        if isinstance(o, Epoch):
+            return (o.jde(), str(o), o.get_full_date())
+        if isinstance(o, Interpolation):
+            xs = list(o._x)
+            pts = [xs[0], (xs[0] + xs[-1]) / 2.0, xs[-1]] if len(xs) >= 2 else []
+            return (len(o), str(o), repr(o), [o(p) for p in pts], [o.derivative(p) for p in pts])
+        if isinstance(o, CurveFitting):
+            out = [len(o), str(o), repr(o)]
+            for m in ("linear_fitting", "quadratic_fitting", "correlation_coeff"):
+                try:
+                    out.append(getattr(o, m)())
+                except ZeroDivisionError:
+                    out.append("ZeroDivisionError")
+            try:
+                out.append(o.general_fitting(lambda x: x * x, lambda x: x, lambda x: 1.0))
+            except ZeroDivisionError:
+                out.append("ZeroDivisionError")
+            return tuple(out)
+        raise TypeError(o)
+
+    def data(n):
+        xs = sorted(set(round(rng.uniform(-10, 10), 2) for _ in range(n + 4)))[:n]
+        return xs, [round(rng.uniform(-5, 5), 3) for _ in xs]
+    for t in range(200 if tier == "thorough" else 20):
+        for kind in ("Angle", "Epoch", "Interpolation", "CurveFitting"):
+            for how in ("constructor", "set"):
+                for mutate_source in (False, True):
+                    ok, det = True, None
+                    try:
+                        if kind == "Angle":
+                            a = Angle(rng.uniform(-359, 359))
+                            b = Angle(a) if how == "constructor" else Angle(1.0)
+                            if how == "set":
+                                b.set(a)
+                            muts = [lambda o: o.set(rng.uniform(-359, 359)), lambda o: o.set_tolerance(1e-5), lambda o: o.to_positive(),
+                                    lambda o: o.set_radians(1.0), lambda o: o.set_ra(3.0)]
+                        elif kind == "Epoch":
+                            a = Epoch(2451545.0 + rng.uniform(-1e5, 1e5))
+                            b = Epoch(a) if how == "constructor" else Epoch(2451545.0)
+                            if how == "set":
+                                b.set(a)
+                            muts = [lambda o: o.set(2400000.5 + rng.uniform(0, 1e5)), lambda o: o.set(2000, 1, 1.5)]
+                        elif kind == "Interpolation":
+                            xs, ys = data(rng.randint(3, 6))
+                            a = Interpolation(xs, ys)
+                            b = Interpolation(a) if how == "constructor" else Interpolation([0.0, 1.0, 2.0], [1.0, 0.0, 3.0])
+                            if how == "set":
+                                b.set(a)
+                            x2, y2 = data(rng.randint(3, 6))
+                            muts = [lambda o: o.set(x2, y2), lambda o: o.set(), lambda o: o.set_tolerance(1e-5), lambda o: o.set(*[v for p in zip(x2, y2) for v in p])]
+                        else:
+                            xs, ys = data(rng.randint(4, 7))
+                            a = CurveFitting(xs, ys)
+                            b = CurveFitting(a) if how == "constructor" else CurveFitting([0.0, 1.0, 2.0], [1.0, 0.0, 3.0])
+                            if how == "set":
+                                b.set(a)
+                            x2, y2 = data(rng.randint(4, 7))
+                            muts = [lambda o: o.set(x2, y2), lambda o: o.set(), lambda o: o.set(*[v for p in zip(x2, y2) for v in p])]
+                        if observe(a) != observe(b):
+                            ok, det = False, ("the copy does not equal its source", kind, how)
+                        for mi, mut in enumerate(muts):
+                            target, other = (a, b) if mutate_source else (b, a)
+                            before = observe(other)
+                            try:
+                                mut(target)
+                            except (ValueError, TypeError):
+                                pass
+                            if observe(other) != before:
+                                ok, det = False, ("changing one of (source, copy) changed the other", kind, how, "source" if mutate_source else "copy", mi)
+                                break
+                    except Exception as ex:
+                        ok, det = False, repr(ex)
+                    yield ((kind, how, "mutate-source" if mutate_source else "mutate-copy", t), ok, det)
